@@ -50,6 +50,10 @@ var c20Scripts = []string{
 	"d = {'a': {'b': 1}} PF08\nprint(${{ github.run_id }}) PF09",
 	// the same issue printed twice (as with -x for two sourced files): two diagnostics
 	"echo twice SC2999",
+	// the interpreter prints one very long warning line (longer than any reader's line buffer) before the issues
+	"import imp LONGNOISE PF10\nprint(imp) PF11",
+	// a sparse JSON object for one of the issues (no column, no level)
+	"echo sparse SC2998 and $X SC2086",
 	// an issue shellcheck locates in the first line of its input (whole-script / parse-level problems)
 	"echo whole script problem SC1072",
 	"echo $Z SC2086 and SC1091 in one script",
@@ -686,7 +690,8 @@ func (c20) Eval(c *Chooser, env *Env) *Outcome {
 			}
 			found := false
 			for i, m := range msgs {
-				if !used[i] && strings.Contains(m, needle1) && hasInt(m, line) && hasInt(m, is.Col) && !strings.ContainsAny(m, "\r\n") {
+				// (the sparse report of SC2998 carries no column)
+				if !used[i] && strings.Contains(m, needle1) && hasInt(m, line) && (is.Code == "SC2998" || hasInt(m, is.Col)) && !strings.ContainsAny(m, "\r\n") {
 					used[i], found = true, true
 					break
 				}
